@@ -414,7 +414,45 @@ def run(ctx):
     esc = lambda t, src: (M.contains(t, lambda u: u[0] == "call" and u[1] == de.path) and M.contains(t, lambda u: u[0] == "call" and u[1] == "std::ffi::OsStr::to_string_lossy" and src(M.noref(u[2][0]))))
     # command
     cmd_push = [(bb, t) for bb, t in tc.calls() if M.callee_str(t["f"]) == "std::string::String::push_str" and esc(Tt.operand(t["args"][1]), lambda x: M.strip(x) == ("field", selfp, "command"))]
-    ctx.ob("R19.4", "command-escaped-first", len(cmd_push) == 1 and not any(cmd_push[0][0] in l for l in loops), tc.loc(cmd_push[0][0] if cmd_push else 0), "the escaped command is appended once, outside any loop")
+    # the same written with adaptors: once(&self.command).chain(&self.args).map(|w| escape(w)).collect::<Vec<_>>().join(" "), pushed once
+    def words_joined():
+        for bb_, t_ in tc.calls():
+            if M.callee_str(t_["f"]) != "std::string::String::push_str" or any(bb_ in l_ for l_ in loops):
+                continue
+            j_ = M.noref(M.strip(Tt.operand(t_["args"][1]), also=("<std::string::String as std::ops::Deref>::deref",)))
+            if not (j_[0] == "call" and j_[1].endswith("<impl [T]>::join") and M.noref(j_[2][1])[0] == "const" and M.noref(j_[2][1])[1] == " "):
+                continue
+            v_ = M.noref(M.strip(j_[2][0], also=("<std::vec::Vec<T, A> as std::ops::Deref>::deref", "<std::vec::Vec<T> as std::ops::Deref>::deref")))
+            if not (v_[0] == "call" and v_[1] == "std::iter::Iterator::collect"):
+                continue
+            m_ = M.noref(v_[2][0])
+            if not (m_[0] == "call" and m_[1] == "std::iter::Iterator::map" and len(m_[2]) == 2):
+                continue
+            c_ = M.noref(m_[2][0])
+            if not (c_[0] == "call" and c_[1] == "std::iter::Iterator::chain" and len(c_[2]) == 2):
+                continue
+            first_, rest_ = M.noref(c_[2][0]), M.noref(c_[2][1])
+            ok_first = first_[0] == "call" and first_[1] == "std::iter::once" and M.noref(M.strip(first_[2][0])) == ("field", selfp, "command")
+            while rest_[0] == "call" and (rest_[1].endswith("into_iter") or rest_[1].endswith("::iter")) and rest_[2]:
+                rest_ = M.noref(rest_[2][0])
+            ok_rest = M.noref(M.strip(rest_)) == ("field", selfp, "args")
+            f_ = M.noref(m_[2][1])
+            ok_f = False
+            if f_[0] == "agg" and f_[1][0] == "closure" and f_[1][1] in prog.fns:
+                cf_ = prog.fns[f_[1][1]]
+                r_ = M.Terms(cf_).local(0)
+                ok_f = M.contains(r_, lambda u: u[0] == "call" and u[1] == de.path) and \
+                    M.contains(r_, lambda u: u[0] == "call" and u[1] == "std::ffi::OsStr::to_string_lossy" and M.noref(M.strip(u[2][0])) == ("param", 2, cf_.local_name(2)))
+            if ok_first and ok_rest and ok_f:
+                return (bb_, t_)
+        return None
+    wj = words_joined() if not cmd_push else None
+    if wj is not None:
+        for k_ in ("command-escaped-first", "args-loop", "command-before-args", "each-arg=' '+escaped(arg)"):
+            ctx.ob("R19.4", k_, True, tc.loc(wj[0]), "command and arguments are escaped word by word, in order (once(command).chain(args)), and joined with single spaces")
+        cmd_push = [wj]
+    else:
+        ctx.ob("R19.4", "command-escaped-first", len(cmd_push) == 1 and not any(cmd_push[0][0] in l for l in loops), tc.loc(cmd_push[0][0] if cmd_push else 0), "the escaped command is appended once, outside any loop")
     if cmd_push:
         out_slot = Tt.addr(cmd_push[0][1]["args"][0])
     # args loop
@@ -425,8 +463,9 @@ def run(ctx):
                 it = M.noref(Tt.operand(t["args"][0]))
                 if it[0] == "call" and it[1].endswith("into_iter") and M.noref(it[2][0]) == ("field", selfp, "args"):
                     arg_loop = (l, bb, t)
-    ctx.ob("R19.4", "args-loop", arg_loop is not None, tc.loc(0), "one loop iterating &self.args directly (no reordering adaptor)")
-    if arg_loop and cmd_push:
+    if wj is None:
+        ctx.ob("R19.4", "args-loop", arg_loop is not None, tc.loc(0), "one loop iterating &self.args directly (no reordering adaptor)")
+    if arg_loop and cmd_push and wj is None:
         l, nbb, nt = arg_loop
         item = ("call", M.callee_str(nt["f"]), tuple(Tt.operand(a) for a in nt["args"]), nbb)
         ctx.ob("R19.4", "command-before-args", dominated_by_blocks(tc, nbb, [cmd_push[0][0]]), tc.loc(nbb), "the command is appended before the arguments")
